@@ -35,6 +35,7 @@ reg_type = z3.Function('reg_type', Ref, Ref)             # Registration::type of
 reg_pet = z3.Function('reg_path_entry_type', Ref, Ref)
 reg_kind = z3.Function('reg_kind', Ref, Int)
 py_int = z3.Function('py_int', Int, Ref)                 # py::int_(i)
+mul = z3.Function('mul', Int, Int, Int)                  # abstract product of two symbolic integers
 py_bool = z3.Function('py_bool', Bool, Ref)              # py::bool_(b)
 py_str = z3.Function('py_str', Str, Ref)                 # py::str(s)
 py_as_bool = z3.Function('py_as_bool', Ref, Bool)        # bool(o) for engine-owned / immutable objects
@@ -277,6 +278,13 @@ class WFView:
     def start(self, i):
         return i + 1 - self.NN(i)
 
+    def inst(self, which: str, *terms):
+        """Instance of a (universally quantified) WF axiom by forall-elimination, computed with the z3 API from the
+        asserted axiom itself: a logical consequence, usable as a fact without a separate proof obligation."""
+        ax = self.named[which]
+        assert z3.is_quantifier(ax) and ax.is_forall() and ax.num_vars() == len(terms)
+        return z3.substitute_vars(ax.body(), *reversed(terms))
+
     def axioms(self, n=None, typing=True) -> list:
         n = self.v.len if n is None else n
         i, k = z3.Ints(f'i_{self.tag} k_{self.tag}')
@@ -304,6 +312,8 @@ class WFView:
             z3.ForAll([i], z3.Implies(inr, NL(i) == PL(i + 1) - PL(start(i))), patterns=[NL(i)]),
             n >= 1, NN(n - 1) == n,
         ]
+        self.named = {'ranges': ax[0], 'leaf': ax[1], 'childless': ax[2], 'children-ends': ax[3], 'child-span': ax[4],
+                      'child-chain': ax[5], 'PL-step': ax[7], 'PL-range': ax[8], 'NL': ax[9]}
         if typing:
             D, E, C, OK = self.D, self.E, self.C, self.OK
             isdict = z3.Or(K(i) == KIND['Dict'], K(i) == KIND['OrderedDict'])
